@@ -209,7 +209,8 @@ pub fn check_io_lines() -> Result<(), (String, String)> {
         }
     }
     // io_read with a count: reader, count, error, success -> success continuation even at EOF (0 bytes); negative count -> error continuation
-    for (count, stdin, want) in [(0i64, &b"abc"[..], 103i64), (2, &b"abc"[..], 103), (5, &b""[..], 103), (-1, &b"abc"[..], 102)] {
+    for (count, stdin, want) in [(0i64, &b"abc"[..], 103i64), (2, &b"abc"[..], 103), (5, &b""[..], 103), (-1, &b"abc"[..], 102), (i64::MAX, &b"abc"[..], 103), (1i64 << 62, &b"abc"[..], 103)] {
+        eprintln!("TRYING io_read|count={count}");
         let mut s2 = s.clone();
         s2.int = count;
         let (seen, _m, _o) = run_declared(R::IoRead, &s2, stdin, &[]);
